@@ -14,6 +14,9 @@ for d in sorted(glob.glob(os.path.join(V, "seeded", "*"))):
         shutil.copy(os.path.join(d, "patch.diff"), os.path.join(tmp, "patch.diff"))
         shutil.copy(os.path.join(d, "demo.py"), os.path.join(tmp, "demo.py"))
         ids = list(meta.get("checks", {}).keys()) or [meta["breaks_property"]]
+        if os.environ.get("SEED_ONLY_DETECTING"):
+            # the property's own check plus the checks that detected the change before (a miss costs a complete run)
+            ids = [k for k, v in meta.get("checks", {}).items() if v.get("detected")]
         if meta["breaks_property"] not in ids:
             ids.insert(0, meta["breaks_property"])
         for base in (None, meta.get("base_commit")):
